@@ -142,6 +142,11 @@ def scenario(rng, drv, k, tier):
         at = rng.choice([0.0, 0.0, round(rng.uniform(0, tend) // 0.001 * 0.001 + 0.000411, 6)])
         subs.append([at, "join", "X9"])
         subinfo.append(["X9", at, 1e6])
+    if drv in ("tridonic", "hasseb") and k % 4 == 2:
+        # two more subscriptions, made with one and the same callable, for the whole run
+        for nm in ("D1", "D2"):
+            subs.append([0.0, "join", nm])
+            subinfo.append([nm, 0.0, 1e6])
     callers = []
     if drv == "tridonic" and rng.random() < 0.5:
         callers.append({"name": "A", "mode": "send", "unit": [[rng.choice(["q16", "cfg", "dapc", "qdt6"]), 20]],
